@@ -113,7 +113,9 @@ once).  If the fork's entries are what the walk reports below `root` (tree
 guarded directories or lies below `root`, then EITHER the fork is refused and
 nothing at all is removed, reported or made final, OR every removed path has
 only real directories above it — no link of `fs` is a proper ancestor —, is
-acted on where it is written and lies inside `root`.  (One walk root; a fork
+acted on where it is written and lies inside `root`.  (`chain` is a parameter here; `removed_in_place_or_nothing_fork` fixes it to the
+directories the Go guard lstats and weakens the link hypothesis to the decided
+`hfsB`.  One walk root; a fork
 has several — each job's files and temp directory —: links below ANOTHER root
 of the same fork are covered only if the roots do not nest, which is not
 modelled.) -/
@@ -143,6 +145,63 @@ theorem removed_in_place_or_nothing (c : Cfg) (s0 : St) (evs : List Ev) (root : 
         · exact absurd hc (not_refused hr e he hl)
         · exact walkBelow_no_link_above t hw root d.path k hk e hb hl
       exact ⟨walkBelow_inside t root d.path k hk, hp, parentsReal_acts_in_place _ _ hp⟩
+
+/-- **removed_in_place_or_nothing_fork.**  The dichotomy for the chain the Go
+guard REALLY lstats — `guardChain nodeDirs forkDir jobDirs`, a function of the
+fork (node directory and the pipelines' above it, the fork directory, every
+job's directory with its files/ and tmp/) — and for the shape of the file
+system as it really is (`hfsB`, decided; evaluated by the driver on the
+independently lstat'ed directory trees of real runs, relocation runs included,
+and required there): every link is one of those directories, or lies below the
+walk's root, or is elsewhere (neither the root or above it nor lexically below
+it — mrp's own `chnk0 -> chnk0-u…` links).  Then either the fork is refused
+and nothing is removed, reported or made final, or every removed path has no
+link of the file system above it, is acted on in place and lies inside the root. -/
+theorem removed_in_place_or_nothing_fork (c : Cfg) (s0 : St) (evs : List Ev) (root : Path) (t : FsTree)
+    (fs : List FsEnt) (nodeDirs : List Path) (forkDir : Path) (jobDirs : List Path)
+    (hw : t.wf = true) (fr : s0.removed = [])
+    (hdisk : ∀ d ∈ s0.disk, ∃ k, (d.path, k) ∈ walkBelow root t)
+    (hfs : hfsB fs (guardChain nodeDirs forkDir jobDirs) root t = true) :
+    (refusedBy fs (guardChain nodeDirs forkDir jobDirs) = true ∧ (runG true c s0 evs).removed = [] ∧
+      (runG true c s0 evs).disk = s0.disk ∧ (runG true c s0 evs).report = s0.report ∧
+      (runG true c s0 evs).final = s0.final) ∨
+    (refusedBy fs (guardChain nodeDirs forkDir jobDirs) = false ∧
+      ∀ d ∈ (runG (refusedBy fs (guardChain nodeDirs forkDir jobDirs)) c s0 evs).removed,
+        pathIsInside d.path root = true ∧ ParentsReal fs d.path ∧ ∀ e ∈ fs, throughLink e d.path = d.path) := by
+  cases hr : refusedBy fs (guardChain nodeDirs forkDir jobDirs) with
+  | true =>
+    obtain ⟨h1, h2, h3, h4⟩ := runG_true_removed c s0 evs
+    exact Or.inl ⟨rfl, by rw [h1, fr], h2, h3, h4⟩
+  | false =>
+    refine Or.inr ⟨rfl, ?_⟩
+    rw [runG_false]
+    intro d hd
+    rcases (shr_run c s0 evs).removed d hd with h1 | h1
+    · rw [fr] at h1; cases h1
+    · obtain ⟨k, hk⟩ := hdisk d h1
+      have hin := walkBelow_inside t root d.path k hk
+      have hp : ParentsReal fs d.path := by
+        intro e he hl
+        rcases hfsB_spec hfs e he hl with hc | hb | ⟨e1, e2⟩
+        · exact absurd hc (not_refused hr e he hl)
+        · exact walkBelow_no_link_above t hw root d.path k hk e hb hl
+        · exact elsewhere_not_above e1 e2 hin
+      exact ⟨hin, hp, parentsReal_acts_in_place _ _ hp⟩
+
+/-- the hypotheses on a fork as mrp lays it out: its own `chnk0 -> chnk0-u1` link is
+"elsewhere", a link below the walk root is admitted, the fork is not refused; with the
+files directory linked the fork is refused -/
+theorem fork_layout_admitted :
+    let nodeDirs := ["/ps/TOP".toList, "/ps/TOP/N".toList]
+    let jobs := ["/ps/TOP/N/fork0/chnk0-u1".toList]
+    let root := "/ps/TOP/N/fork0/chnk0-u1/files".toList
+    let t : FsTree := .file "a".toList 1 (.link "l".toList "/elsewhere".toList .nil)
+    let fs : List FsEnt := [⟨"/ps/TOP/N/fork0/chnk0".toList, some "chnk0-u1".toList⟩,
+                            ⟨"/ps/TOP/N/fork0/chnk0-u1/files/l".toList, some "/elsewhere".toList⟩]
+    hfsB fs (guardChain nodeDirs "/ps/TOP/N/fork0".toList jobs) root t = true ∧
+    refusedBy fs (guardChain nodeDirs "/ps/TOP/N/fork0".toList jobs) = false ∧
+    refusedBy (⟨root, some "/other/volume".toList⟩ :: fs) (guardChain nodeDirs "/ps/TOP/N/fork0".toList jobs) = true := by
+  decide
 
 /-- the guard is not vacuous either way: a linked files directory refuses the fork, a link
 below the walk root does not -/
